@@ -830,7 +830,7 @@ func streamDiffPairs(s *stream.Stream, c *streamCtx) error {
 				return err
 			}
 		}
-		for _, old := range []string{"HEAD~1", "INIT"} {
+		for _, old := range []string{"HEAD~1", "INIT", "init", "Init"} { // `init` / `Init`: not the keyword (no such ref here: resolving fails, "other")
 			_, _, err := realDiff(dirC, old, pr, 1)
 			got := "other"
 			switch {
